@@ -48,6 +48,13 @@ fn main() {
                        else { amf::generate(&kind, &a.tier, a.seed, shard, nshards, &a.out) };
             println!("{}", info);
         }
+        "msg" if a.rest.get(0).map(|s| s == "gen").unwrap_or(false) => {
+            // vharness msg gen <shard> <nshards> <messages.ndjson> --out FILE : reference bodies printed by TLC (Gen_Msg.tla)
+            let shard: u64 = a.rest.get(1).map(|s| s.parse().unwrap()).unwrap_or(0);
+            let nshards: u64 = a.rest.get(2).map(|s| s.parse().unwrap()).unwrap_or(1);
+            let info = msg::generate_from_file(&a.rest[3], shard, nshards, &a.out);
+            println!("{}", info);
+        }
         "msg" => {
             let shard: u64 = a.rest.get(0).map(|s| s.parse().unwrap()).unwrap_or(0);
             let nshards: u64 = a.rest.get(1).map(|s| s.parse().unwrap()).unwrap_or(1);
